@@ -36,6 +36,29 @@ type UpperTriangular struct {
 
 /* -------------------------------------------------------------------------- */
 
+// Move row p[i] of a, x, and b to row i. The pivoting order p is a general
+// permutation, i.e. it cannot be applied as a sequence of interchanges
+// (i, p[i]) [which is what PermuteRows() does].
+func permuteRows(a, x Matrix, b Vector, p []int) error {
+  for i := 0; i < len(p); i++ {
+    // current position of the row that belongs to position i
+    j := p[i]
+    for j < i {
+      j = p[j]
+    }
+    if j != i {
+      if err := a.SwapRows(i, j); err != nil {
+        return err
+      }
+      if err := x.SwapRows(i, j); err != nil {
+        return err
+      }
+      b.Swap(i, j)
+    }
+  }
+  return nil
+}
+
 func gaussJordan(a, x Matrix, b Vector, submatrix []bool) error {
   t := NewScalar(a.ElementType(), 0.0)
   c := NewScalar(a.ElementType(), 0.0)
@@ -158,16 +181,7 @@ func gaussJordan(a, x Matrix, b Vector, submatrix []bool) error {
     // normalize ith element in b
     b.At(p[i]).Div(b.At(p[i]), c)
   }
-  if err := a.PermuteRows(p); err != nil {
-    return err
-  }
-  if err := x.PermuteRows(p); err != nil {
-    return err
-  }
-  if err := b.Permute(p); err != nil {
-    return err
-  }
-  return nil
+  return permuteRows(a, x, b, p)
 singular:
   panic("system is computationally singular")
 }
